@@ -85,7 +85,8 @@ impl<'a> SpecGen<'a> {
     fn solid_ref(&mut self) -> Option<Value> {
         let t = self.solid_targets();
         if t.is_empty() { return None; }
-        Some(r(self.rng.pick(&t)))
+        let n: String = self.rng.pick(&t[..]).clone();
+        Some(r(&n))
     }
 
     /// a schema for a property / parameter / item position
@@ -199,7 +200,7 @@ impl<'a> SpecGen<'a> {
             6 => {
                 // $ref to an enum or primitive component, if any
                 let cands: Vec<String> = self.names.iter().zip(self.kinds.iter()).filter(|(_, k)| matches!(**k, "enum" | "prim")).map(|(n, _)| n.clone()).collect();
-                if cands.is_empty() { json!({"type": "string"}) } else { r(self.rng.pick(&cands)) }
+                if cands.is_empty() { json!({"type": "string"}) } else { let n: String = self.rng.pick(&cands[..]).clone(); r(&n) }
             }
             _ => json!({"type": "string"}),
         };
@@ -259,6 +260,18 @@ impl<'a> SpecGen<'a> {
                 6 => { let mut ms = vec![]; if let Some(t) = self.solid_ref() { ms.push(t); } let mut o = self.object(1, false); o.as_object_mut().unwrap().remove("type"); ms.push(o); self.feat("allof_body"); json!({"allOf": ms}) }
                 _ => self.object(1, false),
             };
+            // one operation's inputs form one scope (they become fields of one struct): drop inline body
+            // members whose folded name equals a parameter's
+            let mut body_schema = body_schema;
+            let fold = |s: &str| s.chars().filter(|c| c.is_ascii_alphanumeric()).collect::<String>().to_lowercase();
+            let taken: Vec<String> = op.get("parameters").and_then(|p| p.as_array()).map(|a| a.iter().filter_map(|p| p["name"].as_str().map(fold)).collect()).unwrap_or_default();
+            let mut taken = taken;
+            for p in path_params { taken.push(fold(p)); }
+            fn strip(v: &mut Value, taken: &[String], fold: &dyn Fn(&str) -> String) {
+                if let Some(props) = v.get_mut("properties").and_then(|p| p.as_object_mut()) { props.retain(|k, _| !taken.contains(&fold(k))); }
+                if let Some(ms) = v.get_mut("allOf").and_then(|a| a.as_array_mut()) { for m in ms { strip(m, taken, fold); } }
+            }
+            strip(&mut body_schema, &taken, &fold);
             op.insert("requestBody".into(), json!({"content": {"application/json": {"schema": body_schema}}}));
             self.feat("body");
         }
